@@ -18,7 +18,8 @@ CONSTANTS K,            \* services (= listener tokens) 1..K
           GracefulRepliesEarly,\* graceful stop replies at the first tick even with connections alive
           IgnoreTimeout,       \* graceful stop never gives up
           ForcedWaits,         \* forced stop waits like a graceful one
-          LifoQueue            \* connections are taken newest first
+          LifoQueue,           \* connections are taken newest first
+          DrainOnlyAtStop      \* queued connections are released when the stop is received, not in the shutdown state
 
 Svc == 1..K
 
@@ -66,6 +67,15 @@ Restart(m, k) ==
     THEN [m EXCEPT !.status = [j \in Svc |-> "Restarting"], !.ws = "Restarting", !.rk = k]
     ELSE [m EXCEPT !.status[k] = "Restarting", !.ws = "Restarting", !.rk = k]
 
+RECURSIVE DrainQueue(_)
+DrainQueue(m) ==
+  IF m.cq = <<>> THEN m
+  ELSE LET c == Head(m.cq) IN
+       IF DrainCalls
+         THEN DrainQueue(Ev([m EXCEPT !.cq = Tail(@), !.live = @ \cup {c[2]}, !.calls = Append(@, c), !.called = @ \cup {c[2]}],
+                            [t |-> "call", k |-> c[1], c |-> c[2]]))
+         ELSE DrainQueue(Ev([m EXCEPT !.cq = Tail(@), !.drained = @ \cup {c[2]}], [t |-> "drain", c |-> c[2]]))
+
 \* `Stop` message handler at the top of every poll
 HandleStop(m) ==
   IF m.sq = <<>> THEN m
@@ -74,7 +84,7 @@ HandleStop(m) ==
          THEN [Ev(m0, [t |-> "reply", v |-> "true"]) EXCEPT !.replies = Append(@, "true"), !.ws = "Done"]
        ELSE IF g \/ ForcedWaits
          THEN \* graceful: Available services stop accepting; a 1 s progress timer starts
-              [m0 EXCEPT !.status = [k \in Svc |-> IF @[k] = "Available" THEN "Stopping" ELSE @[k]],
+              [(IF DrainOnlyAtStop THEN DrainQueue(m0) ELSE m0) EXCEPT !.status = [k \in Svc |-> IF @[k] = "Available" THEN "Stopping" ELSE @[k]],
                          !.ws = "Shutdown", !.due = FALSE, !.since = 0,       \* 1 s progress timer, start_from = now
                          !.replies = IF m.waiting THEN Append(@, "dropped") ELSE @,   \* a second stop replaces the first
                          !.waiting = TRUE]
@@ -99,15 +109,6 @@ AvailLoop(m, first) ==
       [] r[2] = "false" -> PollTop([r[1] EXCEPT !.ws = "Unavailable"])
       [] OTHER -> PollTop(Restart(r[1], r[3]))
 
-RECURSIVE DrainQueue(_)
-DrainQueue(m) ==
-  IF m.cq = <<>> THEN m
-  ELSE LET c == Head(m.cq) IN
-       IF DrainCalls
-         THEN DrainQueue(Ev([m EXCEPT !.cq = Tail(@), !.live = @ \cup {c[2]}, !.calls = Append(@, c), !.called = @ \cup {c[2]}],
-                            [t |-> "call", k |-> c[1], c |-> c[2]]))
-         ELSE DrainQueue(Ev([m EXCEPT !.cq = Tail(@), !.drained = @ \cup {c[2]}], [t |-> "drain", c |-> c[2]]))
-
 PollTop(m0) ==
   LET m == HandleStop(m0) IN
   CASE m.ws = "Done" -> m
@@ -126,7 +127,7 @@ PollTop(m0) ==
                                        !.ws = "Unavailable"],
                            [t |-> "create", k |-> k]))
     [] m.ws = "Shutdown" ->
-         LET m1 == DrainQueue(m) IN
+         LET m1 == IF DrainOnlyAtStop THEN m ELSE DrainQueue(m) IN
            IF ~m1.due THEN m1                                                 \* timer not elapsed: Pending
            ELSE IF Cardinality(m1.live) = 0 \/ GracefulRepliesEarly
              THEN [Ev(m1, [t |-> "reply", v |-> "true"]) EXCEPT !.replies = Append(@, "true"), !.ws = "Done", !.waiting = FALSE]
@@ -233,12 +234,13 @@ C06w_ForcedImmediateStep ==
 C06w_TrueMeansIdleStep == \A p \in 1..Len(pe') : (pe'[p].t = "reply" /\ pe'[p].v = "true") => live' = {}
 \* C01: connections queued at shutdown are released, never served
 C01_DrainReleases == drained \cap called = {}
+C01_ShutdownDrainsQueueStep == (act'.n = "Poll" /\ ws' = "Shutdown") => cq' = <<>>
 C01_NoCallInShutdownStep == (act'.n = "Poll" /\ waiting') => \A p \in 1..Len(pe') : pe'[p].t # "call"
 \* liveness: every stop is answered
 C06w_StopAnswered == [](sq # <<>> => <>(sq = <<>>)) /\ [](waiting => <>(~waiting))
 
 Steps == [][/\ C07_CallOnlyAfterAllReadyStep /\ C07_RestartOnlyFailedStep /\ C07_NoneLostStep
-            /\ C06w_RepliesStep /\ C06w_GracefulNotEarlyStep /\ C06w_ForcedImmediateStep /\ C06w_TrueMeansIdleStep /\ C01_NoCallInShutdownStep]_vars
+            /\ C01_ShutdownDrainsQueueStep /\ C06w_RepliesStep /\ C06w_GracefulNotEarlyStep /\ C06w_ForcedImmediateStep /\ C06w_TrueMeansIdleStep /\ C01_NoCallInShutdownStep]_vars
 
 LogEdge == PrintT(<<"EDGE", ToJson([from |-> View, act |-> act', to |-> View'])>>)
 LogInit == TLCGet("level") > 1 \/ PrintT(<<"INIT", ToJson([from |-> View])>>)
